@@ -42,8 +42,36 @@ impl ServerCertVerifierObject for Arc<ExpectedCertVerifier> { open spec fn insta
 pub struct ClientTls { pub versions: Seq<TlsVersion>, pub verifier: InstalledVerifier, pub chain: Seq<CertificateDer>, pub key: PrivateKeyDer }
 pub struct ServerTls { pub versions: Seq<TlsVersion>, pub client_verifier: CertVerifier, pub certs: Map<Seq<char>, (Seq<CertificateDer>, PrivateKeyDer)>,
                        pub catch_all: bool /* a certificate is presented whatever name the hello asks for */ }
-pub struct TransportConfig { pub id: u64 }
-impl Default for TransportConfig { #[verifier::external_body] fn default() -> (r: Self) { unimplemented!() } }
+// quinn::TransportConfig as a recorder of the knobs anemo turns (None = quinn's default): idle timeout and keep-alive in ms, stream limits
+pub struct TransportConfig { pub id: u64, pub idle_ms: Ghost<Option<nat>>, pub keep_alive_ms: Ghost<Option<nat>>, pub bidi: Ghost<Option<nat>>, pub uni: Ghost<Option<nat>> }
+impl Default for TransportConfig {
+    #[verifier::external_body] fn default() -> (r: Self) ensures r.idle_ms@ is None, r.keep_alive_ms@ is None, r.bidi@ is None, r.uni@ is None { unimplemented!() }
+}
+pub open spec fn varint_max() -> nat { 4611686018427387903 }     // 2^62 - 1
+#[derive(Clone, Copy)] pub struct VarInt { pub v: u64 }
+pub struct VarIntBoundsExceeded;
+impl VarInt {
+    pub const MAX: VarInt = VarInt { v: 4611686018427387903 };
+    #[verifier::external_body] pub fn try_from(n: u64) -> (r: core::result::Result<VarInt, VarIntBoundsExceeded>) ensures r is Ok <==> n <= varint_max(), r is Ok ==> r->Ok_0.v == n { unimplemented!() }
+}
+pub struct IdleTimeout { pub ms: u64 }
+impl From<VarInt> for IdleTimeout { #[verifier::external_body] fn from(v: VarInt) -> (r: IdleTimeout) ensures r.ms == v.v { unimplemented!() } }
+pub struct StdDuration { pub ms: Ghost<nat> }
+pub struct Duration;
+impl Duration { #[verifier::external_body] pub fn from_millis(ms: u64) -> (r: StdDuration) ensures r.ms@ == ms { unimplemented!() } }
+impl TransportConfig {
+    #[verifier::external_body] pub fn max_concurrent_bidi_streams(&mut self, v: VarInt) -> (r: ()) ensures final(self).bidi@ == Some(v.v as nat), final(self).uni == old(self).uni, final(self).idle_ms == old(self).idle_ms, final(self).keep_alive_ms == old(self).keep_alive_ms { unimplemented!() }
+    #[verifier::external_body] pub fn max_concurrent_uni_streams(&mut self, v: VarInt) -> (r: ()) ensures final(self).uni@ == Some(v.v as nat), final(self).bidi == old(self).bidi, final(self).idle_ms == old(self).idle_ms, final(self).keep_alive_ms == old(self).keep_alive_ms { unimplemented!() }
+    #[verifier::external_body] pub fn max_idle_timeout(&mut self, v: Option<IdleTimeout>) -> (r: ()) ensures final(self).idle_ms@ == (match v { Some(t) => Some(t.ms as nat), None => None::<nat> }), final(self).bidi == old(self).bidi, final(self).uni == old(self).uni, final(self).keep_alive_ms == old(self).keep_alive_ms { unimplemented!() }
+    #[verifier::external_body] pub fn keep_alive_interval(&mut self, v: Option<StdDuration>) -> (r: ()) ensures final(self).keep_alive_ms@ == (match v { Some(d) => Some(d.ms@), None => None::<nat> }), final(self).bidi == old(self).bidi, final(self).uni == old(self).uni, final(self).idle_ms == old(self).idle_ms { unimplemented!() }
+    // windows and buffers: not tracked
+    #[verifier::external_body] pub fn stream_receive_window(&mut self, v: VarInt) -> (r: ()) ensures final(self).bidi == old(self).bidi, final(self).uni == old(self).uni, final(self).idle_ms == old(self).idle_ms, final(self).keep_alive_ms == old(self).keep_alive_ms { unimplemented!() }
+    #[verifier::external_body] pub fn receive_window(&mut self, v: VarInt) -> (r: ()) ensures final(self).bidi == old(self).bidi, final(self).uni == old(self).uni, final(self).idle_ms == old(self).idle_ms, final(self).keep_alive_ms == old(self).keep_alive_ms { unimplemented!() }
+    #[verifier::external_body] pub fn send_window(&mut self, v: u64) -> (r: ()) ensures final(self).bidi == old(self).bidi, final(self).uni == old(self).uni, final(self).idle_ms == old(self).idle_ms, final(self).keep_alive_ms == old(self).keep_alive_ms { unimplemented!() }
+    #[verifier::external_body] pub fn crypto_buffer_size(&mut self, v: usize) -> (r: ()) ensures final(self).bidi == old(self).bidi, final(self).uni == old(self).uni, final(self).idle_ms == old(self).idle_ms, final(self).keep_alive_ms == old(self).keep_alive_ms { unimplemented!() }
+}
+pub open spec fn cap_u64(n: u64) -> nat { if n as nat <= varint_max() { n as nat } else { varint_max() } }
+pub open spec fn capped(o: Option<u64>) -> Option<nat> { match o { Some(n) => Some(cap_u64(n)), None => None } }
 pub struct Provider;
 pub struct SigningKey { pub of: PrivateKeyDer }
 pub mod rustls {
@@ -224,6 +252,17 @@ def for_tuple_pattern(invariant):
     return tr
 
 
+def quic_closures(e):
+    """X11 / X6: the closures and function paths of QuicConfig::transport_config get the contract their shape determines"""
+    t = e.text
+    t, k1 = re.subn(r'\.map\(\|(\w+)\|\s*VarInt::try_from\(\1\)\.unwrap_or\(VarInt::MAX\)\)',
+                    r'.map(|\1: u64| -> (v: VarInt) ensures v.v as nat == cap_u64(\1) { VarInt::try_from(\1).unwrap_or(VarInt::MAX) })', t)
+    t, k2 = re.subn(r'\.map\(Into::into\)', '.map(|v: VarInt| -> (t: IdleTimeout) ensures t.ms == v.v { v.into() })', t)
+    t, k3 = re.subn(r'\.map\(Duration::from_millis\)', '.map(|ms: u64| -> (d: StdDuration) ensures d.ms@ == ms { Duration::from_millis(ms) })', t)
+    e.text = t
+    e.log('X11', 'closures / function paths handed to Option::map annotated by shape: VarInt cap x%d, Into::into x%d, Duration::from_millis x%d' % (k1, k2, k3))
+
+
 def build(ctx):
     C = ctx
     t = P.HEADER.replace('use std::collections::HashMap;', 'use std::collections::HashMap;\nuse std::sync::Arc;') + P.STD_SPECS
@@ -233,6 +272,16 @@ def build(ctx):
     t += STANDINS
     tyrw = [dict(rule='X5', pattern=r"CertificateDer<'static>", repl='CertificateDer', optional=True), dict(rule='X5', pattern=r"PrivateKeyDer<'static>", repl='PrivateKeyDer', optional=True),
             dict(rule='X5', pattern='quinn::ServerConfig', repl='quinn::ServerConfig', optional=True)]
+    t += C.item(CFG, 'struct QuicConfig', derives=False)
+    t += 'impl QuicConfig {\n'
+    t += C.fn(CFG, 'impl QuicConfig :: fn transport_config', 'QuicConfig::transport_config', ['C09', 'C12', 'C06'], ret='r', transforms=[quic_closures],
+              rewrites=[dict(rule='X5', pattern='quinn::TransportConfig', repl='TransportConfig', optional=True)], spec='''
+    ensures
+        r.idle_ms@ == capped(self.max_idle_timeout_ms), // @OBL QuicConfig::transport_config::idle_timeout_is_the_configured_one [C09] the idle timeout quinn runs with is the configured number of milliseconds (capped at the largest value QUIC can express); none configured leaves quinn's default: this is the bound within which a silent loss of a peer is noticed
+        r.keep_alive_ms@ == (match self.keep_alive_interval_ms { Some(n) => Some(n as nat), None => None::<nat> }), // @OBL QuicConfig::transport_config::keep_alive_is_the_configured_one [C09] keep-alive packets are sent at the configured interval
+        r.bidi@ == capped(self.max_concurrent_bidi_streams) && r.uni@ == capped(self.max_concurrent_uni_streams), // @OBL QuicConfig::transport_config::stream_limits_are_the_configured_ones [C12,C06] a remote peer may keep as many streams open as configured, no more
+''')
+    t += '}\n'
     t += C.item(CFG, 'struct EndpointConfigBuilder', derives=False)
     t += C.item(CFG, 'struct EndpointConfig', derives=False, rewrites=tyrw)
     t += '''
